@@ -852,6 +852,58 @@ func (rn *Runner) exec(ctx *core.Ctx, ev *Event, op []string) string {
 			return "err"
 		}
 		return fmt.Sprintf("ok c=%d", col)
+	case "gcr2":
+		// gcr2 <capacity> <first spec> <second spec>: a collection as `gc`; if the first run calls DelFile for <first> and then
+		// for <second>, `POST /pins` of <first> is executed inside that second call: after the callback of <first> has decided
+		// that file's deletions (they sit in the run's batch), before the batch is committed.
+		if len(op) != 4 {
+			return skip(ev, "bad-op")
+		}
+		c, err := strconv.ParseUint(op[1], 10, 32)
+		if err != nil {
+			return skip(ev, "bad-op")
+		}
+		_, ok1 := ParseSpec(op[2])
+		_, ok2 := ParseSpec(op[3])
+		if !ok1 || !ok2 {
+			return skip(ev, "bad-op")
+		}
+		for _, g := range ev.Before.GC {
+			f := rn.byRoot(g.Root)
+			if f == nil || f.Enc || !rn.Complete(f, ev.Before) {
+				return skip(ev, "unstable")
+			}
+		}
+		f1, f2 := rn.lookup(op[2]), rn.lookup(op[3])
+		if f1 == nil || f2 == nil {
+			return skip(ev, "nofile")
+		}
+		if f1.Enc || f2.Enc {
+			return skip(ev, "bad-op")
+		}
+		if !rn.known(f1, ev.Before) || !rn.Complete(f1, ev.Before) {
+			return skip(ev, "unstable")
+		}
+		ev.File, ev.Target = f2, f1
+		ev.RaceCode = "-"
+		hook := func() {
+			ev.Mid0 = rn.Snapshot()
+			ev.RaceCode = strconv.Itoa(n.PinRef(f1.Root))
+			n.Quiesce()
+			ev.Mid1 = rn.Snapshot()
+		}
+		runs, col, fired, e := n.CollectGarbageRace(c, []boson.Address{f1.Root, f2.Root}, hook)
+		ev.GCRuns, ev.GCCount, ev.Fired = runs, col, fired
+		n.DB.VerifSetCapacity(DefaultCapacity)
+		if e != nil {
+			return "err"
+		}
+		fl := 0
+		if fired {
+			fl = 1
+		}
+		return fmt.Sprintf("ok c=%d f=%d r=%s", col, fl, ev.RaceCode)
+
 	case "gcr":
 		// gcr <capacity> <trigger spec> pin|unpin|get <target spec> -|d<i>|h<i>
 		// a collection as `gc`; when the first run calls DelFile for its FIRST candidate and that candidate is
@@ -938,7 +990,7 @@ func (rn *Runner) exec(ctx *core.Ctx, ev *Event, op []string) string {
 			n.Quiesce() // the access-time updates of the racing reads are done (and logged as dirty) before the callback
 			ev.Mid1 = rn.Snapshot()
 		}
-		runs, col, fired, e := n.CollectGarbageRace(c, trig.Root, hook)
+		runs, col, fired, e := n.CollectGarbageRace(c, []boson.Address{trig.Root}, hook)
 		ev.GCRuns, ev.GCCount, ev.Fired = runs, col, fired
 		n.DB.VerifSetCapacity(DefaultCapacity)
 		if e != nil {
